@@ -38,7 +38,8 @@ fn d1_model(op: usize, a: i128, s: i128) -> Option<i128> {
     if op == 0 {
         return Some(fl);
     }
-    let ce = clamp(d1_total(mk(fl)).checked_add(clamp(s.abs()))?);
+    // ceil is computed from the unclamped floor of the (D1-read) count, plus |step|
+    let ce = clamp((t1 - t1.rem_euclid(s1)).checked_add(clamp(s.abs()))?);
     if op == 1 {
         return Some(ce);
     }
@@ -85,11 +86,14 @@ pub fn j_dur(op: usize, a: i128, s: i128, out: &mut Local) -> Option<Duration> {
         };
     }
     let (t, f) = model(op, a, s);
-    if op != 0 && f < DMIN {
-        // the floor itself is below the range: "floor plus |s|" is ambiguous there (statement silent)
+    if op == 2 && f < DMIN {
+        // round when the floor candidate is below the range: as next to MAX, "whichever of the two is nearer ... results
+        // saturate" has two readings (statement silent on which)
         out.dc(1);
         return None;
     }
+    // ceil when the floor is below the range: "the least multiple strictly greater than d" is unambiguous (and
+    // representable), whatever happens to the floor itself
     let want = clamp(t);
     let nt = a < 0 || s < 0 || a.rem_euclid(s.abs()) == 0 || t != want;
     // round when the ceil candidate is above the range: "whichever of the two is nearer ... results saturate"
